@@ -77,6 +77,10 @@ func goLzmaWrite(c lzCfg, data []byte, parts []int, plain bool) *writeTrace {
 }
 
 func runLzCase(r *Result, dp *DriverPool, prop string, cs lzCase, plain bool) {
+	if tooManyTimeouts() {
+		r.Inc("cases_skipped_after_timeouts")
+		return
+	}
 	data := unhxe(cs.Data)
 	c := cs.Cfg
 	w := goLzmaWrite(c, data, cs.Parts, plain)
